@@ -445,6 +445,7 @@ func (Scenario) Run(c choice.Chooser, opt sim.Options) (res sim.Result) {
 	// it executes is judged with the update, and every read after the update
 	// returned must be fresh.
 	var subs []string
+	reentrant := false // a subscriber read a node during the current operation
 	for s := 0; s < ns; s++ {
 		if c.Intn("g:subscriber", 4) != 3 {
 			continue
@@ -453,6 +454,7 @@ func (Scenario) Run(c choice.Chooser, opt sim.Options) (res sim.Result) {
 		a := alertReader(func() {
 			defer func() { recover() }()
 			res.Count("fault:subscriber-reads-a-node-inside-the-alert", 1)
+			reentrant = true
 			w.val[target]()
 		})
 		if w.srcKind[s] == 0 {
@@ -501,6 +503,8 @@ ops:
 		res.Evals++
 		res.Steps++
 		w.log = w.log[:0]
+		reentrant = false
+		updated := 0 // the source this operation updates, as a reference (-(s+1)); 0: none
 		var what string
 		// The current value of a function-initialised source is what the
 		// source itself reports (an implementation may call the function at
@@ -606,6 +610,7 @@ ops:
 			}
 			w.srcVal[s] = v
 			pendingPoison = false
+			updated = -(s + 1)
 			w.markDependents(-(s + 1))
 			changedSinceRead = true
 			hist = append(hist, what)
@@ -746,6 +751,15 @@ ops:
 			}
 			w.nodes[x].dirty = false
 			w.nodes[x].execs++
+			if reentrant && updated != 0 && w.dependsOn(x, updated) {
+				// Executed by a read from inside the alert of the very
+				// update it depends on: the update was still in flight (an
+				// implementation that pushes staleness notifies this node
+				// after the subscriber that read it - benign change C11-g1),
+				// so the change may reach the node after this execution: it
+				// may execute once more.
+				w.nodes[x].dirty = true
+			}
 		}
 		if kind != 0 && len(w.log) > 0 {
 			res.Count("probe:executions-outside-reads", len(w.log))
